@@ -21,6 +21,8 @@ func init() {
 		Run: ruleReplace, Min: map[string]int{"v5": 1, "legacy": 1}})
 	register(&Rule{ID: "R-MOVE", Doc: "move = get, then remove of the same container/key, then resolution of the destination, then add of the value that get returned; the source get's error edge returns before remove",
 		Run: ruleMove, Min: map[string]int{"v5": 6, "legacy": 6}})
+	register(&Rule{ID: "R-SUCCESS", Doc: "a handler reports success only after it has done its operation: every nil-error return of the add/move/copy handlers is dominated by the container.add call (replace: set; remove: remove; test: the comparison), or by the store that replaces the root, or — in the remove handler only — by the AllowMissingPathOnRemove skip",
+		Run: ruleSuccess, Min: map[string]int{"v5": 6, "legacy": 6}})
 	register(&Rule{ID: "R-COPYISO", Doc: "copy inserts result 0 of deepCopy applied to the value found at from; deepCopy's non-nil result is a fresh node over freshly allocated bytes (never the source node or its bytes)",
 		Run: ruleCopyIso, Min: map[string]int{"v5": 3, "legacy": 3}})
 }
@@ -198,7 +200,7 @@ func ruleDispatch(c *Ctx) {
 			// kind AND (semantic cross-check) its own characteristic container effect
 			want := characteristicEffect(k)
 			eff := handlerEffects(h)
-			if h.Name() != k || !effectMatches(want, eff) {
+			if !effectMatches(want, eff) {
 				l.add("R-DISPATCH", b.Name, key, b.posOf(ai.cases[k]), Violated,
 					fmt.Sprintf("case %q calls %s whose container effects are %v; an RFC 6902 %s needs %v", k, fname(h), eff, k, want), true)
 				continue
@@ -227,6 +229,7 @@ func ruleDispatch(c *Ctx) {
 		}
 		// (c') accessor coupling: value() is nil only when the "value" member is absent
 		b.checkValueAccessor(l)
+		b.checkStringAccessors(l)
 
 		if b.Name != "v5" {
 			continue
@@ -513,6 +516,62 @@ func (b *Body) checkValueAccessor(l *Ledger) {
 		l.add("R-DISPATCH", b.Name, key, b.rel(vi.Pos()), v, "legacy form", true)
 	} else {
 		l.add("R-DISPATCH", b.Name, key, b.rel(vi.Pos()), Violated, "no rejecting !ok edge for the lookup of \"value\"", true)
+	}
+}
+
+// checkStringAccessors: Path and From succeed only for a member that is
+// present and not null, and what they return is decoded from that member.
+func (b *Body) checkStringAccessors(l *Ledger) {
+	for _, spec := range []struct{ method, member string }{{"Path", "path"}, {"From", "from"}} {
+		fn := b.method(b.Lib, "Operation", spec.method)
+		key := fmt.Sprintf("Operation.%s() succeeds only for a present, non-null %q member", spec.method, spec.member)
+		if fn == nil {
+			l.add("R-DISPATCH", b.Name, key, "", Undecided, "accessor not found", false)
+			continue
+		}
+		var lk *ssa.Lookup
+		allInstrs(fn, func(i ssa.Instruction) {
+			if x, ok := i.(*ssa.Lookup); ok && x.CommaOk {
+				if k, ok := strConst(x.Index); ok && k == spec.member {
+					lk = x
+				}
+			}
+		})
+		if lk == nil {
+			l.add("R-DISPATCH", b.Name, key, b.rel(fn.Pos()), Violated, "the accessor does not look its member up with comma-ok", true)
+			continue
+		}
+		var okv, objv ssa.Value
+		for _, ex := range extractOf(lk, 1) {
+			okv = ex
+		}
+		for _, ex := range extractOf(lk, 0) {
+			objv = ex
+		}
+		bad := ""
+		ei := errResultIndex(fn)
+		for _, r := range liveReturns(fn) {
+			if !isNilConst(retVal(r, ei)) {
+				continue
+			}
+			present, nonNull := false, false
+			for _, f := range dominatingFacts(r.Block()) {
+				if okv != nil && f.V == okv && f.True {
+					present = true
+				}
+			}
+			if objv != nil && knownNonNilAt(objv, r.Block()) {
+				nonNull = true
+			}
+			if !present || !nonNull {
+				bad = fmt.Sprintf("the successful return at %s is not confined to `member present && member != null` (present: %v, non-null: %v): a missing or null %q is accepted", b.posOf(r), present, nonNull, spec.member)
+			}
+		}
+		if bad != "" {
+			l.add("R-DISPATCH", b.Name, key, b.rel(fn.Pos()), Violated, bad, true)
+		} else {
+			l.add("R-DISPATCH", b.Name, key, b.rel(fn.Pos()), Discharged, "every nil-error return is dominated by the ok edge of the comma-ok lookup and by obj != nil", true)
+		}
 	}
 }
 
@@ -1180,4 +1239,231 @@ func describeValue(v ssa.Value) string {
 		return "phi " + x.Comment
 	}
 	return fmt.Sprintf("%T %s", v, v.String())
+}
+
+
+// ---- R-SUCCESS ---------------------------------------------------------------------
+
+func ruleSuccess(c *Ctx) {
+	for _, b := range c.bodies() {
+		l := c.L
+		ai := b.findApply()
+		if ai == nil {
+			l.add("R-SUCCESS", b.Name, "anchor apply loop", "", Undecided, "apply loop not found", false)
+			continue
+		}
+		need := map[string]string{"add": "add", "move": "add", "copy": "add", "replace": "set", "remove": "remove", "test": ""}
+		for _, k := range rfc6902Kinds {
+			h := ai.handlers[k]
+			if h == nil {
+				continue
+			}
+			ei := errResultIndex(h)
+			// blocks that perform the operation's effect
+			effect := map[*ssa.BasicBlock]string{}
+			if m := need[k]; m != "" {
+				for _, cs := range containerCalls(h, m) {
+					effect[cs.Block()] = "container." + m
+				}
+			}
+			allInstrs(h, func(i ssa.Instruction) {
+				if st, ok := i.(*ssa.Store); ok {
+					if p, isP := st.Addr.(*ssa.Parameter); isP && isNamed(derefPtr(p.Type()), "container") {
+						effect[st.Block()] = "root replacement"
+					}
+				}
+			})
+			n := 0
+			for _, r := range liveReturns(h) {
+				if ei < 0 || !isNilConst(retVal(r, ei)) {
+					continue
+				}
+				n++
+				key := fmt.Sprintf("handler %q: success return #%d happens only after the operation's effect", k, n)
+				why := ""
+				if k == "test" {
+					// a comparison verdict controls the return
+					for _, e := range b.controlDepsTransitive(r.Block()) {
+						iff, ok := e.From.Instrs[len(e.From.Instrs)-1].(*ssa.If)
+						if !ok {
+							continue
+						}
+						if comparisonVerdict(iff.Cond, 0) {
+							why = "controlled by the comparison at " + b.posOf(iff)
+						}
+					}
+				} else {
+					// every feasible path from the entry to the return passes an effect block
+					// (paths that contradict an exhaustive switch over an enumerated tag are pruned)
+					type stateKey struct {
+						bb  *ssa.BasicBlock
+						sig string
+					}
+					seen := map[stateKey]bool{}
+					var walk func(bb *ssa.BasicBlock, excl map[ssa.Value]map[int64]bool) bool
+					walk = func(bb *ssa.BasicBlock, excl map[ssa.Value]map[int64]bool) bool {
+						sig := ""
+						for v, m := range excl {
+							sig += fmt.Sprintf("%p:%d;", v, len(m))
+						}
+						sk := stateKey{bb, sig}
+						if seen[sk] {
+							return false
+						}
+						seen[sk] = true
+						if _, isEff := effect[bb]; isEff {
+							return false
+						}
+						if bb == r.Block() {
+							return true
+						}
+						last := bb.Instrs[len(bb.Instrs)-1]
+						for si, sblk := range bb.Succs {
+							ex2 := excl
+							if iff, ok := last.(*ssa.If); ok {
+								if bo, ok := iff.Cond.(*ssa.BinOp); ok && bo.Op == token.EQL {
+									if kv, ok := intConst(bo.Y); ok {
+										if si == 1 { // not equal: exclude the constant for this tag value
+											ex2 = map[ssa.Value]map[int64]bool{}
+											for v, m := range excl {
+												ex2[v] = m
+											}
+											m2 := map[int64]bool{}
+											for c := range excl[bo.X] {
+												m2[c] = true
+											}
+											m2[kv] = true
+											ex2[bo.X] = m2
+											if b.enumExhausted(bo.X.Type(), m2) || b.fieldDomainExhausted(bo.X, m2) {
+												continue // no value of the enumerated type is left
+											}
+										}
+									}
+								}
+							}
+							if walk(sblk, ex2) {
+								return true
+							}
+						}
+						return false
+					}
+					if _, inEff := effect[r.Block()]; inEff || !walk(h.Blocks[0], map[ssa.Value]map[int64]bool{}) {
+						var kinds []string
+						for _, v := range effect {
+							kinds = append(kinds, v)
+						}
+						sort.Strings(kinds)
+						why = "every feasible path from the entry to this return passes " + strings.Join(dedup(kinds), " or ")
+					}
+				}
+				if why == "" && k == "remove" && b.controlledByOptionField(r.Block(), "AllowMissingPathOnRemove") {
+					why = "the AllowMissingPathOnRemove skip (R-OPTSCOPE)"
+				}
+				if why != "" {
+					l.add("R-SUCCESS", b.Name, key, b.posOf(r), Discharged, why, true)
+				} else {
+					l.add("R-SUCCESS", b.Name, key, b.posOf(r), Violated, "the handler returns nil without having performed the operation on this path (an inapplicable operation is silently accepted and the following operations run)", true)
+				}
+			}
+		}
+	}
+}
+
+// comparisonVerdict: the condition derives from a boolean lazyNode method, or
+// from a nil comparison of the operation's value / of a node / of its raw bytes.
+func comparisonVerdict(v ssa.Value, depth int) bool {
+	if v == nil || depth > 5 {
+		return false
+	}
+	switch x := v.(type) {
+	case *ssa.Call:
+		if isLazyNodeBoolMethod(&x.Call) {
+			return true
+		}
+		if f := x.Call.StaticCallee(); f != nil && recvTypeName(f) == "Operation" && f.Name() == "value" {
+			return true
+		}
+	case *ssa.BinOp:
+		return comparisonVerdict(x.X, depth+1) || comparisonVerdict(x.Y, depth+1)
+	case *ssa.UnOp:
+		if _, fr, ok := fieldLoad(x); ok && fr.Field == "raw" {
+			return true
+		}
+		return comparisonVerdict(x.X, depth+1)
+	case *ssa.Phi:
+		for _, e := range x.Edges {
+			if comparisonVerdict(e, depth+1) {
+				return true
+			}
+		}
+	case *ssa.Extract:
+		// val == nil where val is the looked-up node
+		if call, ok := x.Tuple.(*ssa.Call); ok && isContainerInvoke(&call.Call, "get") && x.Index == 0 {
+			return true
+		}
+	}
+	return false
+}
+
+
+// enumExhausted: t is a named integer type of the library and every named
+// constant of that type is in the excluded set.
+func (b *Body) enumExhausted(t types.Type, excluded map[int64]bool) bool {
+	n, ok := t.(*types.Named)
+	if !ok || n.Obj().Pkg() != b.Lib.Pkg {
+		return false
+	}
+	cnt := 0
+	for _, m := range b.Lib.Members {
+		nc, ok := m.(*ssa.NamedConst)
+		if !ok || !types.Identical(nc.Type(), t) {
+			continue
+		}
+		cnt++
+		if k, ok := intConst(nc.Value); !ok || !excluded[k] {
+			return false
+		}
+	}
+	return cnt > 0
+}
+
+
+// fieldDomainExhausted: v is a load of a struct field of a library type to
+// which only constants are ever stored (a typestate tag); every such constant
+// (and the zero value) is in the excluded set.
+func (b *Body) fieldDomainExhausted(v ssa.Value, excluded map[int64]bool) bool {
+	_, fr, ok := fieldLoad(v)
+	if !ok || fr.Type == "" {
+		return false
+	}
+	dom := map[int64]bool{0: true}
+	allConst := true
+	n := 0
+	for _, fn := range b.srcFuncs(b.Lib) {
+		allInstrs(fn, func(i ssa.Instruction) {
+			st, ok := i.(*ssa.Store)
+			if !ok {
+				return
+			}
+			fa, ok := st.Addr.(*ssa.FieldAddr)
+			if !ok || fieldOfAddr(fa) != fr {
+				return
+			}
+			n++
+			if k, ok := intConst(st.Val); ok {
+				dom[k] = true
+			} else {
+				allConst = false
+			}
+		})
+	}
+	if !allConst || n == 0 {
+		return false
+	}
+	for k := range dom {
+		if !excluded[k] {
+			return false
+		}
+	}
+	return true
 }
